@@ -9,6 +9,8 @@ Structural clauses decided (cardillo/solver/statics.py):
  R3 same evaluation point   every System evaluation in residual and Jacobian uses the same (t, q) pair (and u = u0 = 0)
  R4 loud early stop         shared with C21 (flag walker): Newton's truncated return warns with the load step and drops the
                             failed step; Riks asserts success
+ R5 stored-row isolation    (K11, sa/alias.py) no returned point shares memory with a buffer that is modified in place after the
+                            point was stored: "every point returned" is the point that was solved for
 """
 from __future__ import annotations
 
@@ -16,6 +18,7 @@ import ast
 
 from ..core import AnalysisError, dotted, norm_src
 from .. import termset
+from .. import alias
 
 EXPLANATION = ("Term-set extraction over residual and Jacobian of both static solvers, pairing W_x/la_x with Wla_x_q/W_x; "
                "row inventory of residual vs bmat block rows; evaluation-point normalisation; C21's flag walker for the early stop.")
@@ -32,6 +35,8 @@ def run(ctx):
     rep.rule("C23.R2", "residual rows and Jacobian block rows", 10)
     rep.rule("C23.R3", "single evaluation point", 20)
     rep.rule("C23.R4", "loud early stop (C21 engine)", 2)
+    rep.rule("C23.R5", "stored points are not modified after they were stored (may-alias analysis)", 1)
+    alias.report(rep, "C23.R5", ctx.repo, [(ST, "Newton"), (ST, "Riks")])
     for cname, rname, jname in (("Newton", "fun", "jac"), ("Riks", "R", "J")):
         cls = ctx.repo.get(ST, cname)
         rf = ctx.repo.get(ST, f"{cname}.{rname}")
@@ -145,4 +150,14 @@ MUTANTS = [
     dict(id="c23-m6", what="Riks.J drops the W_g column", file=ST,
          old="        return bmat([[      K, self.W_c, self.W_g,   self.W_N, Ru_t[:, None]], ", new="        return bmat([[      K, self.W_c, None,   self.W_N, Ru_t[:, None]], ", expect="C23.R1"),
 ]
-NEUTRAL = []
+MUTANTS += [
+    dict(id="c23-r5-orig", canary=True, what="Riks: secant predictor added in place to the array whose views were stored (original defect)", file=ST,
+         old="                xk1 = xk1 + dx\n", new="                xk1 += dx\n", expect="C23.R5"),
+    dict(id="c23-r5-2", what="Riks: predictor written through a slice of the stored buffer", file=ST,
+         old="                xk1 = xk1 + dx\n", new="                xk1[:] = xk1 + dx\n", expect="C23.R5"),
+]
+NEUTRAL = [
+    dict(id="c23-n1", canary=True, what="Riks stores copies and updates the predictor in place", file=ST,
+         old="            q.append(q_)\n            la_c.append(la_c_)\n            la_g.append(la_g_)\n            la_N.append(la_N_)\n",
+         new="            q.append(q_.copy())\n            la_c.append(la_c_.copy())\n            la_g.append(la_g_.copy())\n            la_N.append(la_N_.copy())\n"),
+]
